@@ -316,15 +316,22 @@ func VerifC14Framing() {
 	defer remove()
 	ncl := vf.Choice("content-length-lines", 3)
 	var cls []string
+	var lines []string
 	for i := 0; i < ncl; i++ {
-		d := vf.String("cl", 1+vf.Choice("cl-digits", 2))
-		for j := 0; j < len(d); j++ {
-			vf.Assume(d[j] >= '0' && d[j] <= '9')
+		// a header line carries one value or a comma-separated list of values
+		var elems []string
+		for e, ne := 0, 1+vf.Choice("cl-elements", 2); e < ne; e++ {
+			d := vf.String("cl", 1+vf.Choice("cl-digits", 2))
+			for j := 0; j < len(d); j++ {
+				vf.Assume(d[j] >= '0' && d[j] <= '9')
+			}
+			elems = append(elems, d)
+			cls = append(cls, d)
 		}
-		cls = append(cls, d)
+		lines = append(lines, strings.Join(elems, ", "))
 	}
 	if ncl > 0 {
-		req.Header["Content-Length"] = cls
+		req.Header["Content-Length"] = lines
 	}
 	teChoice := vf.Choice("transfer-encoding", 7)
 	tes := [][]string{nil, {"chunked"}, {"gzip, chunked"}, {"chunked", "gzip"}, {"gzip", "chunked"}, {"gzip, chunked", "identity"}, {"gzip , chunked "}}[teChoice]
